@@ -608,7 +608,7 @@ func TestC18(t *testing.T) {
 			c.Sig("root|"+n, true)
 		}
 		// regular files whose stat size says nothing about their content (kernel pseudo-files report 0)
-		for _, pf := range []string{"/proc/sys/kernel/ostype", "/proc/version", "/proc/filesystems"} {
+		for _, pf := range []string{"/proc/sys/kernel/ostype", "/proc/version", "/proc/filesystems", "/proc/kallsyms", "/proc/crypto", "/proc/devices"} {
 			fi, err := os.Lstat(pf)
 			if err != nil || !fi.Mode().IsRegular() {
 				continue
